@@ -139,11 +139,13 @@ PROPS["C16"] = {
              "reference distributions with the two-stage p<1e-5 then p<1e-7 rule; distinct = distinct parameter sets; all non-trivial. "
              "Bulk job: the table-driven samplers (std_exponential, exponential, std_normal, normal) drawn 2e9 times each (quick; 3.2e10 "
              "thorough) on all cores, binned at 1/128 in C and judged here: chi-square fine and coarse, exact binomial tests of the mass in "
-             "the first 1..64 bins (cap of the ziggurat) and beyond 2..20 (tails), two-stage p<1e-6 twice"),
-    "headline": ["parameter_sets", "draws", "support_checks", "fit_tests", "stage2_reruns", "bulk_draws", "bulk_tests", "bulk_worst_p_ppm_std_exponential",
+             "the first 1..64 bins (cap of the ziggurat) and beyond 2..20 (tails), two-stage p<1e-6 twice; the integer-valued samplers "
+             "(alias tables, loaded dice, dice, flip, bernoulli, geometric, poisson, binomial) 6e7..5e8 draws each, one bin per value: "
+             "no draw on a value of probability zero, chi-square, exact binomial test per value"),
+    "headline": ["parameter_sets", "draws", "support_checks", "fit_tests", "stage2_reruns", "bulk_draws", "bulk_samplers", "bulk_tests", "bulk_worst_p_ppm_std_exponential", "bulk_worst_p_ppm_alias", "bulk_worst_p_ppm_geometric",
                  "bulk_worst_p_ppm_std_normal", "worst_p_ppm_std_normal",
                  "worst_p_ppm_std_exponential", "worst_p_ppm_std_beta", "worst_p_ppm_loaded_dice", "worst_p_ppm_geometric"],
-    "min_observed": {"quick": {"parameter_sets": 140, "draws": 20000000, "bulk_draws": 8000000000}},
+    "min_observed": {"quick": {"parameter_sets": 140, "draws": 20000000, "bulk_draws": 11000000000, "bulk_samplers": 15}},
     "assumptions": ["scipy.stats reference CDF/PMFs are correct", "statistical: false-alarm probability < 1e-9 per parameter set by the two-stage rule",
                     "samplers are driven from the dispatcher context (FP exceptions masked) so NaN results are observed rather than trapped"],
 }
